@@ -34,6 +34,17 @@ WITNESSES = [
     ("w-self-move-last", "2=1", "MOVE:2:2,DEL:2", "0,0,0,0,1,0,0,0,1,1,0,0,0,1,0,0,0,1,0,1,0,1"),
     ("w-move-pop-orphan", "2=1", "MOVE:2:2,POP:2", "1,0,0,0,1,0,0,1,1"),
     ("w-stable-push-push", "1=1", "PUSH:1,PUSH:1", "0,1,0,1,0,1,0,1"),
+    # the same on keys whose value has been evicted to Pebble: the first locker reloads it
+    ("c-cold-push-len", "1=2", "LEN:1,PUSH:1", "0,1,0,1,0,1,0,1,0,1"),
+    ("c-cold-len-push", "1=2", "LEN:1,PUSH:1", "0,0,1,1,0,1,0,1,0,1"),
+    ("c-cold-len-len-push", "1=2", "LEN:1,LEN:1,PUSH:1", "0,1,0,1,2,2,0,1,2,0,1,2,0,1,2"),
+    ("c-cold-push-push", "1=2", "PUSH:1,PUSH:1", "0,1,0,1,0,1,0,1"),
+    ("c-cold-pop-push", "1=1", "POP:1,PUSH:1", "0,0,1,0,0,1,1,1,1"),
+    # keys whose deadline has passed but which are still in the index (value 0 = exists, counts as empty): re-created in place
+    ("e-expired-push-push", "1=0", "PUSH:1,PUSH:1", "0,1,0,1,0,1,0,1"),
+    ("e-expired-push-push-push", "1=0", "PUSH:1,PUSH:1,PUSH:1", "0,1,2,0,1,2,0,1,2,0,1,2,0,1,2"),
+    ("e-expired-push-len", "1=0", "PUSH:1,LEN:1", "0,1,0,1,0,1,0,1"),
+    ("e-expired-len-push-push", "1=0", "LEN:1,PUSH:1,PUSH:1", "0,1,2,0,1,2,0,1,2,0,1,2,0,1,2"),
     ("w-stable-push-len", "1=1", "PUSH:1,LEN:1", "0,1,0,1,0,1,0,1"),
     ("w-stable-pop-pop", "1=3", "POP:1,POP:1", "0,1,0,1,0,1,0,1"),
     ("w-stable-pushx-pushx", "1=1", "PUSHX:1,PUSHX:1", "0,1,0,1,0,1,0,1"),
@@ -85,7 +96,7 @@ def gen_random(rnd, n, single_only=False, with_move=False):
         sched = [rnd.randrange(nth) for _ in range(rnd.randrange(4, 9) * nth)]
         # drain: every thread that can finish does
         sched += [t for _ in range(8) for t in range(nth)]
-        out.append(("r%d" % i, ",".join(vals) or "-", ",".join(cmds), ",".join(map(str, sched))))
+        out.append((("c-r%d" if i % 5 == 4 else "r%d") % i, ",".join(vals) or "-", ",".join(cmds), ",".join(map(str, sched))))
     return out
 
 
